@@ -241,6 +241,8 @@ struct NodeHost {
     fail_next_recv: u32,
     fail_bind: bool,
     consumed: u64,
+    /// trace index of the datagram consumed last
+    last_consumed: Option<usize>,
     snap_consumed: u64,
 }
 
@@ -524,6 +526,7 @@ impl Env for Inner {
                 st.consume_seq += 1;
                 st.trace[id].consumed = Some(st.consume_seq);
                 st.hosts[host].consumed += 1;
+                st.hosts[host].last_consumed = Some(id);
                 let n = bytes.len().min(buf.len());
                 buf[..n].copy_from_slice(&bytes[..n]);
                 return Ok((n, SocketAddr::V4(from)));
@@ -544,6 +547,7 @@ impl Env for Inner {
             st.consume_seq += 1;
             st.trace[id].consumed = Some(st.consume_seq);
             st.hosts[host].consumed += 1;
+            st.hosts[host].last_consumed = Some(id);
             let n = bytes.len().min(buf.len());
             buf[..n].copy_from_slice(&bytes[..n]);
             return Ok((n, SocketAddr::V4(from)));
@@ -951,6 +955,7 @@ impl Sim {
                 fail_next_recv: 0,
                 fail_bind: false,
                 consumed: 0,
+                last_consumed: None,
                 snap_consumed: 0,
             });
             id
@@ -1071,6 +1076,11 @@ impl Sim {
     }
     pub fn want_snapshot(&self, host: HostId) {
         self.inner.st.borrow_mut().hosts[host].snap_wanted = true;
+    }
+    /// Source address and bytes of the datagram the node's actor consumed last.
+    pub fn last_consumed(&self, host: HostId) -> Option<(SocketAddrV4, Rc<[u8]>)> {
+        let st = self.inner.st.borrow();
+        st.hosts[host].last_consumed.map(|id| (st.trace[id].src, st.trace[id].bytes.clone()))
     }
     /// Number of datagrams the node's actor has consumed so far.
     pub fn consumed(&self, host: HostId) -> u64 {
